@@ -3,10 +3,26 @@ package fzf
 import (
 	"os"
 	"strings"
+	"sync"
 	"unsafe"
 )
 
+// Temporary files that have been created but not yet removed. The command
+// that uses them may still be running (or may not have been started yet) when
+// fzf exits, so whatever is left is removed on exit.
+var (
+	tempFilesMutex  sync.Mutex
+	liveTempFiles   = make(map[string]struct{})
+	tempFilesClosed bool
+)
+
 func WriteTemporaryFile(data []string, printSep string) string {
+	tempFilesMutex.Lock()
+	defer tempFilesMutex.Unlock()
+	if tempFilesClosed {
+		// We are exiting; nothing will remove the file
+		return ""
+	}
 	f, err := os.CreateTemp("", "fzf-temp-*")
 	if err != nil {
 		// Unable to create temporary file
@@ -17,12 +33,39 @@ func WriteTemporaryFile(data []string, printSep string) string {
 
 	f.WriteString(strings.Join(data, printSep))
 	f.WriteString(printSep)
+	liveTempFiles[f.Name()] = struct{}{}
 	return f.Name()
 }
 
 func removeFiles(files []string) {
+	tempFilesMutex.Lock()
+	defer tempFilesMutex.Unlock()
 	for _, filename := range files {
 		os.Remove(filename)
+		delete(liveTempFiles, filename)
+	}
+}
+
+// keepFiles leaves the files to a command that outlives this process
+func keepFiles(files []string) {
+	tempFilesMutex.Lock()
+	defer tempFilesMutex.Unlock()
+	for _, filename := range files {
+		delete(liveTempFiles, filename)
+	}
+}
+
+// allowTempFiles(false) removes the temporary files that are still around
+// and refuses to create new ones until allowTempFiles(true) is called
+func allowTempFiles(allow bool) {
+	tempFilesMutex.Lock()
+	defer tempFilesMutex.Unlock()
+	tempFilesClosed = !allow
+	if !allow {
+		for filename := range liveTempFiles {
+			os.Remove(filename)
+		}
+		liveTempFiles = make(map[string]struct{})
 	}
 }
 
